@@ -442,7 +442,76 @@ def rule_n10(repo):
                     'term bindings only) is dropped, and the match can contradict it' % (bad[0].lineno, src(bad[0].ast, 40)), '%s:%d' % (MATCHER, (bad or fresh)[0].lineno))
     return res
 
+def rule_n12(repo):
+    """Inside an abstraction the matcher works on bodies in which the bound variable is replaced by a stand-in.  What it
+    assigns to a schematic variable must not mention a stand-in - the instantiated pattern would have a free variable
+    where the target has a bound one.  For a part of the target that is assigned *as it is* (`inst[k] = t`, `= t.fun`) that
+    means: the store is behind `<that part>.has_vars(bd_vars)` with a failure on true.  (Values built by abstracting the
+    arguments are N8's subject.)  The bare-variable case had the test, the heuristic branch had not:
+    %x. ?f (?m x + 1) matched %x. g x (r x + 1) with ?f := g x."""
+    res = RuleResult('C09.N12', 'a part of the target is assigned to a schematic variable only after it was tested free of stand-ins for bound variables', floor=2)
+    f = repo.func(MATCHER, 'first_order_match')
+    for name, g in f.nested.items():
+        ps = g.params()
+        if len(ps) < 2:
+            continue
+        tpar = ps[1]
+        cfg = cfg_of(g.node)
+        for n in cfg.stmt_nodes(ast.Assign):
+            for t in n.ast.targets:
+                if not (isinstance(t, ast.Subscript) and is_name(t.value, 'inst')):
+                    continue
+                v = path_of(n.ast.value)
+                if v is None or v.split('.')[0] != tpar:
+                    continue
+
+                def escapes(e, pol, v=v):
+                    return not pol and isinstance(e, ast.Call) and call_attr(e) in ('has_vars', 'has_var') and path_of(e.func.value) == v and \
+                        e.args and 'bd_vars' in src(e.args[0], 40)
+
+                def no_binders(e, pol):
+                    return not pol and is_name(e, 'bd_vars')
+                edges = cfg.establishing_edges(escapes) | cfg.establishing_edges(no_binders)
+                has_test = bool(cfg.establishing_edges(escapes))
+                ok = has_test and cfg.path_avoiding(n, skip_edges=edges) is None
+                res.add('%s :: first_order_match.%s :: bind(%s)@%s :: free-of-stand-ins' % (MATCHER, name, src(t.slice), v), ok,
+                        '`%s.has_vars(bd_vars)` fails the match first' % v if ok else
+                        'line %d assigns `%s` as it is, without testing it for the variables that stand for enclosing binders: inside %%x. .. the assigned term can '
+                        'mention x, and the instantiated pattern is not the target' % (n.lineno, v), '%s:%d' % (MATCHER, n.lineno))
+    return res
+
+
+def rule_n13(repo):
+    """The stand-in for a bound variable has to differ from every variable that can turn up while the bodies are matched.
+    Those are the variables of the two bodies - and the variables of the terms already assigned, because a schematic
+    variable of the pattern's body stands for such a term: with ?y := x, the pattern ?y + F (%x. ?y) must not match
+    x + F (%z. z), which it does when the stand-in for the binder is also called x.  The list of names to avoid takes
+    names from the instantiation."""
+    from ..fresh import fresh_sites
+    res = RuleResult('C09.N13', 'the stand-in for a bound variable also avoids the variables of the terms already assigned', floor=1)
+    f = repo.func(MATCHER, 'first_order_match')
+    n_sites = 0
+    for name, g in f.nested.items():
+        flow = flow_of(g.node)
+        for c, avoid, how, ok0, detail in fresh_sites(g):
+            n_sites += 1
+            if not isinstance(avoid, ast.Name):
+                res.add('%s :: first_order_match.%s :: avoid-list' % (MATCHER, name), False, 'the names to avoid are not collected in a list of their own', '%s:%d' % (MATCHER, c.lineno))
+                continue
+            # everything that flows into the list
+            contrib = [r for _k, r in flow.defs.get(avoid.id, [])]
+            for lp in ast.walk(g.node):
+                if isinstance(lp, ast.For) and any(isinstance(x, ast.Call) and call_attr(x) in ('append', 'extend') and is_name(x.func.value, avoid.id) for x in ast.walk(lp)):
+                    contrib.append(lp.iter)
+            from_inst = any(isinstance(x, ast.Name) and x.id == 'inst' for e in contrib for x in ast.walk(e))
+            res.add('%s :: first_order_match.%s :: avoid-list-includes-instantiation' % (MATCHER, name), from_inst,
+                    'names of the variables of the assigned terms are added to `%s`' % avoid.id if from_inst else
+                    'line %d chooses the stand-in against `%s`, which is built from the two bodies only: a variable of a term assigned earlier can have the same '
+                    'name, and ?y + F (%%x. ?y) matches x + F (%%z. z)' % (c.lineno, avoid.id), '%s:%d' % (MATCHER, c.lineno))
+    need(n_sites, 'first_order_match: no fresh-name site found')
+    return res
+
 
 def rules(repo):
     return [rule_n1(repo), rule_n2(repo), rule_n3(repo), rule_n4(repo), rule_n5(repo), rule_n6(repo), rule_n7(repo), rule_n8(repo), rule_n9(repo),
-            rule_n10(repo), rule_n11(repo)]
+            rule_n10(repo), rule_n11(repo), rule_n12(repo), rule_n13(repo)]
